@@ -310,6 +310,8 @@ pub fn run(ctx: &Ctx) -> i32 {
                     let y = sample(&mut runner, &any32);
                     let base = 0xfee020u32 + (y % 7);
                     let a = match (y >> 3) & 3 {
+                        // (one in four of these: the same offset in the other register block instead)
+                        0 if (y >> 12) & 1 == 1 => 0xffff20 + (base - 0xfee000),
                         0 => base.wrapping_add(0x100 * (1 + ((y >> 8) & 3))),
                         1 => base.wrapping_add(0x0100_0000 * (1 + ((y >> 8) & 0xff) % 255)),
                         2 => base ^ (1u32 << (8 + ((y >> 8) % 24))),
